@@ -17,7 +17,7 @@ import (
 // and its origin is brought to the viewport's origin).
 func c18ViewBox(c *core.Check) {
 	p := c.Prog
-	r := c.Rule("R8", "viewBox and preserveAspectRatio: resolveTransforms, folded for none / meet / slice × which axis factor is larger × the nine alignments, scales each axis by viewport/viewBox (the common smaller or larger factor unless none) and translates each axis by align·(viewport − viewBox·scale) − viewBox origin·(that axis' scale), with align 0, 1/2, 1 for min, mid, max", 36)
+	r := c.Rule("R8", "viewBox and preserveAspectRatio: resolveTransforms, folded for none / meet / slice × which axis factor is larger × the nine alignments, scales each axis by viewport/viewBox (the common smaller or larger factor unless none) and translates each axis by align·(viewport − viewBox·scale) − viewBox origin·(that axis' scale), with align 0, 1/2, 1 for min, mid, max", 40)
 	fn := p.Method("svg", "preserveAspectRatio", "resolveTransforms")
 	pk := p.ByPath["svg"]
 	if fn == nil || pk == nil || len(fn.Params) != 5 {
